@@ -468,6 +468,7 @@ def gen_array_facts(ctx):
         if k in ('CallExpr', 'CXXMemberCallExpr', 'CXXOperatorCallExpr'): return call(n)
         if k == 'CXXConstructExpr' or k == 'CXXTemporaryObjectExpr':
             return '%s{%s}' % ('ctor', ', '.join(expr(a) for a in n.get('inner', [])))
+        if k == 'ConditionalOperator' and '__assert_fail' in _json.dumps(n): return 'assert(%s)' % expr(n['inner'][0])   # (no line numbers in the facts)
         if k == 'ConditionalOperator': return '(%s ? %s : %s)' % tuple(expr(a) for a in n['inner'])
         if k == 'ArraySubscriptExpr': return '%s[%s]' % (expr(n['inner'][0]), expr(n['inner'][1]))
         return k
@@ -538,6 +539,32 @@ def gen_array_facts(ctx):
         ds4 = cxx2coq.method_decls(shspec, 'Insert')
         if len(ds4) != 1: raise cxx2coq.TranslationError('ArrayShifter::Insert: %d candidate bodies' % len(ds4))
         more.append(('shifter_insert_input_stmts', stmts([x for x in ds4[0]['inner'] if x.get('kind') == 'CompoundStmt'][0])))
+        # Array::Data::Reset (external branch): the items creator runs BEFORE the old storage is released
+        datas = [x for x in spec.get('inner', []) if x.get('kind') == 'CXXRecordDecl' and x.get('name') == 'Data' and any(m_.get('kind') == 'FunctionTemplateDecl' for m_ in x.get('inner', []))]
+        if len(datas) != 1: raise cxx2coq.TranslationError('Array::Data: %d definitions' % len(datas))
+        rs_ = [stmts([x for x in d['inner'] if x.get('kind') == 'CompoundStmt'][0]) for d in cxx2coq.method_decls(datas[0], 'Reset')]
+        if not rs_ or any(l_ != rs_[0] for l_ in rs_): raise cxx2coq.TranslationError('Data::Reset: no body / the instantiations differ')
+        more.append(('data_reset_stmts', rs_[0]))
+        # the creator lambdas handed to Reset: pvGrow / Shrink (relocate only), SetCountCrt (create the new items, then relocate), pvAddBackGrow(creator)
+        def lambdas_of(name, pred=lambda d: True):
+            outl = []
+            for d in cxx2coq.method_decls(spec, name):
+                if not pred(d): continue
+                def walk(n):
+                    if not isinstance(n, dict): return
+                    if n.get('kind') == 'LambdaExpr':
+                        for r_ in n.get('inner', []):
+                            if r_.get('kind') == 'CXXRecordDecl':
+                                for m_ in r_.get('inner', []):
+                                    if m_.get('kind') == 'CXXMethodDecl' and m_.get('name') == 'operator()':
+                                        b_ = [x for x in m_.get('inner', []) if x.get('kind') == 'CompoundStmt']
+                                        if b_: outl.append('; '.join(stmts(b_[0])))
+                        return
+                    for x in n.get('inner', []) or []: walk(x)
+                walk(d)
+            return sorted(set(outl))
+        more.append(('pv_grow_lambda', lambdas_of('pvGrow')))
+        more.append(('set_count_crt_lambdas', lambdas_of('SetCountCrt')))
         # momo::stdish::vector: the body of each forwarding member
         cfg2 = {'tu': os.path.join(ctx.pdir, 'inst_stdish.cpp'), 'filter': 'stdish::vector', 'class': 'vector', 'includes': [os.path.join(ctx.repo, 'include')]}
         vspec = cxx2coq.find_spec(cxx2coq.load_objs(cxx2coq.dump_ast(cfg2, ctx.repo)), cfg2)
@@ -629,6 +656,29 @@ def replay(ctx, rp):
     print('property holds on this case'); return 0
 
 
+def finish(ctx):
+    """ctx.finish + hygiene for runs against a private copy of the headers (VERIF_REPO = mutant / seed runs): such a run must not leave
+    anything behind that a following normal run (or a reader of evidence/) would trip over: the evidence file of the last NORMAL run is
+    restored (the mutant's evidence is kept as build/C05/evidence-mutant.json).  The replay files named by the VIOLATION lines stay in replays/
+    (they are the deliverable of the run; nothing reads that directory on a normal run)."""
+    ev = os.path.join(ctx.root, 'evidence', ctx.id + '.json')
+    mutant = os.path.realpath(ctx.repo) != os.path.realpath('/repo')
+    saved = open(ev).read() if (mutant and os.path.exists(ev)) else None
+    rc = ctx.finish(rule=RULE)
+    if mutant:
+        import shutil
+        try:
+            shutil.copy(ev, os.path.join(ctx.build, 'evidence-mutant.json'))
+            if saved is not None:
+                open(ev, 'w').write(saved)
+            else:
+                os.remove(ev)
+            print('[%s] mutant run (VERIF_REPO=%s): evidence/%s.json restored (this run: build/%s/evidence-mutant.json)' % (ctx.id, ctx.repo, ctx.id, ctx.id), flush=True)
+        except OSError as e:
+            print('[%s] mutant-run hygiene failed: %s' % (ctx.id, e), flush=True)
+    return rc
+
+
 def run(ctx):
     scale = 1 if ctx.quick() else 4
     ctx.trusted += ['tools/cxx2coq.py + clang 14 JSON AST for GrowCapacity (validated on every run against the real function)',
@@ -643,10 +693,10 @@ def run(ctx):
     ctx.prove()
     hs = build_harnesses(ctx)
     if hs is None:
-        return ctx.finish(rule=RULE)
+        return finish(ctx)
     traits = get_traits(ctx, hs)
     if traits is None:
-        return ctx.finish(rule=RULE)
+        return finish(ctx)
     ctx.coverage['element_traits(isNothrowMoveConstructible,isNothrowRelocatable)'] = traits
     cases = {e: gen_cases(ctx, e, traits, scale) for e in ELEMS}
     gcases = grow_cases(ctx, scale)
@@ -732,7 +782,7 @@ def run(ctx):
     for c in allc[::max(1, len(allc) // 6)][:6]:
         ctx.add_sample(c[:300])
     ctx.coverage['input_distribution'] = measure(cases, impl_out, gcases, rcases, rej_stats)
-    return ctx.finish(rule=RULE)
+    return finish(ctx)
 
 
 RULE = ('scripts = for every container config (Array, ArrayIntCap<1,4,16>, Array with a Reallocate manager, SegmentedArray cnst/sqrt x 3 '
